@@ -2161,7 +2161,19 @@ class ImageIterator:
         """Returns a generator that yields rendered and formatted frames of the
         underlying image.
         """
-        self._img = img  # For cleanup
+        # For cleanup; must be set even if iteration never starts
+        self._img = img
+
+        return self._animate_frames(img, alpha, fmt, style_args)
+
+    def _animate_frames(
+        self,
+        img: PIL.Image.Image,
+        alpha: Union[None, float, str],
+        fmt: Tuple[Union[None, str, int]],
+        style_args: Dict[str, Any],
+    ) -> Generator[str, int, None]:
+        """The generator returned by :py:meth:`_animate`."""
         image = self._image
         cached = self._cached
         self._loop_no = repeat = self._repeat
